@@ -12,6 +12,57 @@ CHECKS = {
  "C03": dict(level="proof", tech="effect analysis: byte order of every encoding/binary atom is a syntactic constant; unit-order, order-purity and twin-flip rules", ref="§4 C03",
    text="Every multi-byte number passes through an encoding/binary atom whose ByteOrder is a syntactic constant; B1 checks each atom of each message against the unit's declared order, B2 order-purity of every primitive (generic body and all instantiations), B3 that each F/FLE twin differs only by flipped orders.",
    note="Trusted: ByteOrder semantics of encoding/binary; go/ssa. Declared order per unit is the property statement."),
+ "C04": dict(level="proof", tech="marker-relative offset analysis (affine domain over buf.Len() observations) on every frame Encode path", ref="§4 C04",
+   text="On every success path of each length-computing frame: the patched value is the difference of two Len() observations delimiting exactly the body atoms, the patched range is exactly the placeholder's bytes (same type and order, fresh Bytes()), the placeholder is constant and the stale length never reaches the wire; markers are symbolic, so it holds for every prior buffer state.",
+   note="Trusted: bytes.Buffer Len()/Bytes() relative to the unread region; Bytes() valid until the next append."),
+ "C05": dict(level="other", tech="effect-order and span analysis of the checksum call on every frame Encode path; service/assertion type check", ref="§4 C05",
+   text="Span, order, placement and plumbing of the frame checksum are proven for every body and buffer history (K1-K5); the numeric correctness of the algorithm is delegated to C14, hence 'other'.",
+   note="Assumes the registry in its start-up configuration (checked statically: no non-test module code mutates it outside init); registered services satisfy C14."),
+ "C06": dict(level="proof", tech="effect classification of every buffer use on all Encode paths (append-only), marker-dependence and receiver-store analysis", ref="§4 C06",
+   text="A1 append-only, A2 no dependence on prior buffer length/content, A3 only computed fields or nil-materialised parts are stored and no package state is written – on every path of every Encode with module callees inlined.",
+   note="Trusted: stdlib model for bytes.Buffer; Len()/Bytes() relative to the unread region."),
+ "C07": dict(level="proof", tech="mirror of read atoms against write atoms plus classification of every buffer use on all Decode paths and reader primitives", ref="§4 C07",
+   text="Each read atom consumes exactly what its opposite write atom produces; every buffer use in decode-reachable code is an exact consuming atom, an observer or a nested Decode.",
+   note="Relative to the encoding/binary / io.ReadFull axioms (DESIGN §7)."),
+ "C08": dict(level="other", tech="value-path (provenance) analysis against a lossless-operation allow-list, plus mirror and strip/pad agreement", ref="§4 C08",
+   text="Decode loses no wire information structurally: mirror, lossless value paths on both sides, strip byte/side equals pad byte/side, list order preserved, only computed fields may differ. Value semantics of the allow-listed stdlib operations are axioms, hence 'other'.",
+   note="Trusted: bytes.TrimLeft/TrimRight for an ASCII cutset, encoding/binary bit preservation."),
+ "C09": dict(level="proof", tech="enumeration and discharge of every panic site, loop-bound and recursion analysis on all Decode paths", ref="§4 C09",
+   text="Every instruction that can panic on a decode path is enumerated and discharged by a dominating guard or whole-program fact; loops are counted and input-bounded; no recursion, goroutines or foreign locks.",
+   note="Relative to the no-panic entries of the stdlib model; 64-bit int. Unbounded allocation is C10; error propagation is C11."),
+ "C10": dict(level="proof", tech="taint analysis: wire-derived values to allocation sizes, with dominance-based sanitisers (comparison with buf.Len(), min)", ref="§4 C10",
+   text="No allocation size on any decode path (or in any reader primitive instantiation) derives from a wire value without being bounded by the bytes present.",
+   note="The constant factor (element size) and allocator behaviour are reported, not judged."),
+ "C11": dict(level="proof", tech="path-sensitive error-discipline analysis: every failing atom must end in a provably non-nil error", ref="§4 C11",
+   text="On every path of every Decode, reader primitive and lookup on which a read fails, comes back short, a nested Decode fails or a key is unknown, the function returns a non-nil error; with C07 every strict prefix of a valid encoding is rejected.",
+   note="Relative to the stdlib axioms (binary.Read/io.ReadFull fail on short input; Buffer.Read reports a short count)."),
+ "C12": dict(level="other", tech="extraction of table registrations from init functions compared with the frozen tables; path analysis of lookups and of both uses", ref="§4 C12",
+   text="Exhaustive over the 18 finite tables (226 keys) and the key-independent miss path; oracle is the frozen table, hence 'other'.",
+   note="Trusted: golden/golden.json tables are the pinned discriminator assignments."),
+ "C13": dict(level="other", tech="symbolic-parameter effect analysis of the fixed-text primitives (affine byte counts, cut/pad shape, boundary-scan strip idiom) per bool valuation", ref="§4 C13",
+   text="Byte count, cut, pad side, pad/strip byte agreement and parameter forwarding are decided for every width, pad byte, side and value; the value semantics of bytes.Repeat / slicing are axioms, hence 'other'.",
+   note="Trusted: bytes.Repeat length, slice semantics."),
+ "C14": dict(level="other", tech="effect analysis of each Calc (read-only, deterministic, whole input) plus wrap-aware interval analysis and mod-256 congruence rule", ref="§4 C14",
+   text="Non-consumption, determinism, whole-input coverage, result range [0,255] and absence of sign-extension/overflow effects are decided for every input; the CRC-16 constants (polynomial, init, reflection) are a value-level fact that is not decided, hence 'other'.",
+   note="Not decided: numerical equality of the CRC-16 bit loop with CRC-16/MODBUS. Trusted: hash/crc32."),
+ "C15": dict(level="proof", tech="must-assign and old-state-dependence analysis on all Decode success paths (provenance terms free of the receiver's initial content)", ref="§4 C15",
+   text="Every receiver field is assigned (or decoded into) on every success path, nothing stored or branched on derives from the receiver's previous content except the nil test of a nested pointer part, lists start from fresh slices.",
+   note="Trusted: go/ssa; distinct provenance terms denote distinct locations."),
+ "C16": dict(level="proof", tech="alias-taint analysis (Bytes/Next sources, copying operations as sanitisers) plus unsafe/reflect-header ban", ref="§4 C16",
+   text="No value aliasing the buffer reaches a return value or a lasting store on any decode path or primitive; no unsafe; encode never replaces or leaks the buffer.",
+   note="Trusted: aliasing entries of the stdlib model."),
+ "C17": dict(level="proof", tech="enumeration and discharge of every panic site on all Encode paths (nil guards, bounds, assertion, loops)", ref="§4 C17",
+   text="Every dereference of a receiver-held pointer/interface is dominated by a nil guard or materialisation; slices, indices, Repeat counts and the patch are within bounds; the only unchecked assertion is discharged by the registered service type.",
+   note="Relative to the stdlib model; buffer growth failure (OOM) not modelled; nil list elements and typed-nil interfaces are outside the property."),
+ "C18": dict(level="proof", tech="dominance of every narrowing T(len(x)) prefix by an exact overflow guard; failing-guard paths must return non-nil errors through all inlined callers", ref="§4 C18",
+   text="Every length-prefix write from a narrowing conversion is dominated by a round-trip or exact max-compare guard, and every path on which a guard fails returns a non-nil error in the primitive and in every Encode reaching it.",
+   note="64-bit int."),
+ "C19": dict(level="proof", tech="lockset / critical-section analysis over all paths of every function touching the registry map", ref="§4 C19",
+   text="Every access to the registry map happens under the mutex of the same object (exclusive for writes), every acquisition is released on every exit, each operation is one critical section, the map never escapes, the registry pointer is assigned once: data-race freedom and linearizability follow for all interleavings.",
+   note="Trusted: sync.RWMutex; Algorithm() of a service is pure. Schedules are not explored; the verdict is the classical consequence of the lock discipline."),
+ "C20": dict(level="proof", tech="global-state effect analysis over the call graph (CHA quick, VTA thorough) from every Encode/Decode/lookup/primitive", ref="§4 C20",
+   text="No function reachable from the codecs writes package-level state, starts goroutines or uses channels/pools; package state read on codec paths is written only by start-up functions or is the lock-protected registry; factories return fresh objects.",
+   note="Relative to the stdlib model's thread-safety entries; schedules are not explored."),
 }
 
 NOT_YET = {
